@@ -25,6 +25,7 @@ type LAuthn struct {
 
 type LProxy struct {
 	Count     int
+	CountLit  string // when set: the literal written for Count (leading zeros, sign, values beyond 64 bits)
 	Audiences []string
 }
 
@@ -57,9 +58,20 @@ type LAssertion struct {
 	Sign    *SigOpts // own enveloped signature
 	Encrypt *EncOpts // delivered as EncryptedAssertion
 
+	// Twins: a non-conforming producer writes, right after a genuine element, an element of the same
+	// local name in a namespace that is not SAML's (extension content in the wrong place).
+	Twins []LTwin
+
 	// ForeignIssuer: a non-conforming producer writes, where the Issuer belongs (after it when there is
 	// one), an element called Issuer in a namespace that is not SAML's.
 	ForeignIssuer *string
+}
+
+// LTwin is a foreign-namespace element named like the SAML element Of, with its own attributes and text.
+type LTwin struct {
+	Of    string // SubjectConfirmationData | Conditions | NameID | AuthnStatement | Subject
+	Attrs [][2]string
+	Text  string
 }
 
 type LResponse struct {
@@ -161,7 +173,7 @@ func NormAssertion(a *types.Assertion) NAssertion {
 			nc.AudienceRestrictions = append(nc.AudienceRestrictions, auds)
 		}
 		if p := c.ProxyRestriction; p != nil {
-			np := &NProxy{Count: p.Count}
+			np := &NProxy{Count: int(p.Count)} // (conversion: stays compilable if the field type changes)
 			for _, x := range p.Audience {
 				np.Audiences = append(np.Audiences, x.Value)
 			}
